@@ -247,6 +247,7 @@ inline std::string classify_stderr(const std::string& err) {
         std::string o; for (char c : l) { if (!(c >= '0' && c <= '9') && c != '-') o += c; }
         while (o.find("  ") != std::string::npos) o.erase(o.find("  "), 1);
         if (o.size() > 60) o.resize(60);
+        for (char& c : o) if (c == ' ' || c == '\'' || c == '"') c = '_';     // signatures never contain blanks
         kind = "ubsan:" + o;
     } else if (err.find("ThreadSanitizer") != std::string::npos) {
         kind = "tsan";
